@@ -378,6 +378,19 @@ func (c *celValidator) convertInOperator(args []*exprpb.Expr, fieldName string) 
 		}
 	}
 
+	// A list of numeric literals: compare against each literal directly, so that the
+	// untyped constants take the type of the element (a field of any integer or float
+	// type). Going through []interface{} would compare dynamic types as well, and
+	// int8(1) == interface{}(1) is false.
+	if list := args[1].GetListExpr(); list != nil && len(list.Elements) > 0 && allNumericConstants(list.Elements) {
+		comparisons := make([]string, len(list.Elements))
+		for i, item := range list.Elements {
+			comparisons[i] = fmt.Sprintf("%s == %s", element, c.convertASTToGo(item, fieldName))
+		}
+
+		return "(" + strings.Join(comparisons, " || ") + ")"
+	}
+
 	// Optimize for field contains literal string: field contains "literal"
 	if strings.HasPrefix(collection, "t.") && strings.HasPrefix(element, "\"") && strings.HasSuffix(element, "\"") {
 		return fmt.Sprintf("slices.Contains(%s, %s)", collection, element)
@@ -385,6 +398,24 @@ func (c *celValidator) convertInOperator(args []*exprpb.Expr, fieldName string) 
 
 	// Generate a contains check for slices
 	return fmt.Sprintf("func() bool { for _, item := range %s { if item == %s { return true } }; return false }()", collection, element)
+}
+
+// allNumericConstants reports whether every element is an integer or double literal.
+func allNumericConstants(elements []*exprpb.Expr) bool {
+	for _, element := range elements {
+		constant := element.GetConstExpr()
+		if constant == nil {
+			return false
+		}
+
+		switch constant.ConstantKind.(type) {
+		case *exprpb.Constant_Int64Value, *exprpb.Constant_Uint64Value, *exprpb.Constant_DoubleValue:
+		default:
+			return false
+		}
+	}
+
+	return true
 }
 
 func (c *celValidator) optimizeStringSliceContains(collection, element string) string {
